@@ -92,8 +92,12 @@ class CompleteWorkflowHandler(StabilizeHandler[CompleteWorkflow]):
 
             logger.info("Execution %s completed with status %s", execution.id, status)
 
-            # Record event if event recorder is configured
-            if self.event_recorder:
+            def record_completion_event() -> None:
+                # Called INSIDE the store transaction: the event commits with
+                # the workflow status it describes (recorded before it, a lost
+                # optimistic lock left a completion event without the state).
+                if not self.event_recorder:
+                    return
                 self.set_event_context(execution.id)
                 if status == WorkflowStatus.SUCCEEDED:
                     self.event_recorder.record_workflow_completed(
@@ -124,6 +128,7 @@ class CompleteWorkflowHandler(StabilizeHandler[CompleteWorkflow]):
             # Atomic: update execution status + cancel stages + start waiting workflows
             with self.repository.transaction(self.queue) as txn:
                 txn.update_workflow_status(execution)
+                record_completion_event()
 
                 # Message deduplication
                 if message.message_id:
